@@ -26,9 +26,20 @@ class Job:
         return self.cfg_defines() + self.defines + (['WITNESS'] if self.witness else []) + (['IR_MEMSET_SWEEP'] if self.sweep else [])
 
 def verif_hash():
-    # everything that shapes a query; the registry itself is not hashed: each job's parameters are part of its own key
-    return build.tree_hash([os.path.join(VERIF, d) for d in ('rt', 'shim', 'harness')] +
-                           [os.path.join(VERIF, 'tools', f) for f in ('ir2c.py', 'irparse.py', 'build.py', 'driver.py', 'nodesizes.py')] + [os.path.join(VERIF, 'tools', 'bin')])
+    # everything that shapes EVERY query: runtime model, translator, driver, shared headers.  The registry is not hashed
+    # (each job's parameters are part of its own key), and a harness / shim source only enters the keys of its own jobs.
+    import glob
+    return build.tree_hash([os.path.join(VERIF, 'rt')] +
+                           [os.path.join(VERIF, 'tools', f) for f in ('ir2c.py', 'irparse.py', 'build.py', 'driver.py', 'nodesizes.py')] + [os.path.join(VERIF, 'tools', 'bin')] +
+                           sorted(glob.glob(os.path.join(VERIF, 'harness', '*.h'))) + sorted(glob.glob(os.path.join(VERIF, 'shim', '*.hpp'))))
+_src_hash = {}
+def src_hash(job):
+    k = (job.harness, job.group)
+    if k not in _src_hash:
+        files = [os.path.join(VERIF, 'harness', job.harness), os.path.join(VERIF, 'shim', job.group + '.cpp')]
+        if job.group == 'temp3': files.append(os.path.join(VERIF, 'shim', 'temp.cpp'))       # temp3.cpp includes it
+        _src_hash[k] = build.tree_hash([f for f in files if os.path.exists(f)])
+    return _src_hash[k]
 
 _build_lock = threading.Lock()
 # never schedule more than MEM_BUDGET GB of per-query memory caps at once (the machine has 62 GB)
@@ -57,7 +68,7 @@ def get_group(job):
     return g
 
 def job_key(job, rh, vh):
-    return build.sha(rh, vh, job.name, job.group, job.config, job.harness, ' '.join(job.all_defines()), str(job.unwind),
+    return build.sha(rh, vh, src_hash(job), job.name, job.group, job.config, job.harness, ' '.join(job.all_defines()), str(job.unwind),
                      ','.join(job.unwindset), str(job.temp_mode), ' '.join(job.extra), str(job.solver), job.roots, str(job.threads), job.function, str(job.witness), str(job.sweep))
 
 def sweep_unwind(job, g):
